@@ -3,6 +3,7 @@ import json
 import random
 
 from .. import tlc
+from ..core import Machinery
 from .c10 import _selfcheck
 
 LEVEL = "model_checking"
@@ -122,10 +123,51 @@ def run(ctx):
                 return t
     if good3 is not None:
         _selfcheck(ctx, "CounterTrace", None, good3, corrupt_cha, "chacha: one bit of the key stream")
+    # ---- HPKE: successive messages never share a nonce.  The channel model (sys/HpkeChannel: nonce distinctness, in-order-once, the limit) is
+    #      checked and a sample of its histories - all those with a refused input, plus contexts preset just below the last sequence number -
+    #      is replayed on real contexts; spec/trace/HpkeTrace steps the model along them with the projected sequence numbers.  (C15 runs the
+    #      larger sample with the RFC 9180 values; here only the sequence-number discipline is decided.)
+    ctx.mc("HpkeMC", "HpkeMC.cfg", workers=4)
+    rh = ctx.mc("HpkeMC", "HpkeMC_hist.cfg", workers=4)
+    hh = [json.loads(h) for h in sorted(set(tlc.tla_string_to_py(h) for h in rh.prints("HIST")))]
+    rnd.shuffle(hh)
+    refused = [h for h in hh if any(e.get("mut", "none") != "none" for e in h)]
+    hh = refused[:120 if quick else 1500] + hh[:40 if quick else 500]
+    for k in range(6 if quick else 30):
+        hh.append([{"op": "preset", "v": 1000000 - rnd.choice([1, 2, 3])}, {"op": "seal"}, {"op": "unseal", "src": 1, "mut": "none"},
+                   {"op": "seal"}, {"op": "unseal", "src": 2, "mut": rnd.choice(["none", "flip", "otheraad"])}, {"op": "seal"},
+                   {"op": "unseal", "src": rnd.choice([1, 2]), "mut": "none"}, {"op": "seal"}])
+    ht = [t for t in ctx.drive("c15_hpke", [], inp={"hists": hh, "nfull": 0, "nfull_big": 0, "nonce0": 0}) if t["family"] == "hpke"]
+    for i, t in enumerate(ht):
+        t["tid"] = 900000 + i
+    hv = ctx.validate("HpkeTrace", ht, family="hpke-sequence", timeout=1800)
+    hgood = None
+    for t in ht:
+        ctx.count()
+        pos, clause = hv[t["tid"]]
+        calls = [[e["op"], e.get("src"), e.get("mut"), e.get("exc")] for e in t["events"]]
+        ctx.nontriv(["hpke", t["cfg"]["kem"], t["cfg"]["aead"], t["cfg"]["mode"], calls])
+        if clause == "ok":
+            if hgood is None and any(e.get("hasproj") and e["op"] == "unseal" and e["exc"] == "none" for e in t["events"]):
+                hgood = t
+            continue
+        if clause.startswith("harness:"):
+            raise Machinery("harness inconsistency: %s in %s" % (clause, calls))
+        ctx.violation("hpke: %s" % clause, {"suite": {k: t["cfg"].get(k) for k in ("kem", "aead", "mode")}, "position": pos, "calls": calls[:pos]}, replay=t)
+    ctx.extra["hpke_contexts_replayed"] = len(ht)
+    if hgood is not None:
+        def bump_seq(t):
+            e = next(e for e in t["events"] if e.get("hasproj") and e["op"] == "unseal" and e["exc"] == "none")
+            e["seq"] += 1
+            return t
+        _selfcheck(ctx, "HpkeTrace", None, hgood, bump_seq, "hpke: sequence number after an accepted message")
+    elif not ctx.violations:
+        raise Machinery("no accepted HPKE trace with a projected sequence number for the binding self-check")
     ctx.rule = ("request-length and seek classes enumerated by TLC from obj/CtrCounter and obj/ChaChaStream (4 calls, every class "
                 "combination; seed-dependent sample biased to histories that cross the limit) scaled to real MODE_CTR objects "
                 "(AES and 3DES, counter_len 1..2 (3 in thorough), random prefix/suffix split, both endiannesses, initial values at and "
                 "around the wrap) and ChaCha20/XChaCha20 objects (8/12/24-byte nonces, seek to the last blocks); CCM limits for "
                 "every nonce length; distinct_nontrivial = distinct (layout, call sequence) containing at least one refused call")
-    ctx.assume("GCM's 2^39-256 byte limit is not reached by volume (64 GiB); HPKE nonce distinctness is decided under C15")
+    ctx.assume("GCM's 2^39-256 byte limit is not reached by volume (64 GiB); HPKE: the sequence-number discipline is decided here on a sample of the "
+               "channel model's histories, the RFC 9180 values of key, base nonce and ciphertexts under C15")
     ctx.assume("for counter_len >= 4 the limit is not reachable by volume; the carry logic is covered by the scaled-down exhaustive model")
